@@ -1437,32 +1437,26 @@ impl Context {
                             }
                             BinaryOpcode::Compare => Ok(zero),
                             BinaryOpcode::Mod => {
+                                // d(a.rem_euclid(b)) = da - db * a.div_euclid(b)
+                                //
+                                // Mirrors f32::div_euclid: truncate a / b, then
+                                // step away from zero if the remainder `a % b` is
+                                // negative, i.e. a < 0 and b does not divide a.
                                 let e = self.div(v_lhs, v_rhs).unwrap();
-                                let q = self.floor(e).unwrap();
+                                let neg = self.less_than(e, zero).unwrap();
+                                let lo = self.floor(e).unwrap();
+                                let hi = self.ceil(e).unwrap();
+                                let q = self.if_nonzero_else(neg, hi, lo).unwrap();
 
-                                // XXX
-                                // (we don't actually have %, so hack it from
-                                // `modulo`, which is actually `rem_euclid`)
-                                // ???
-                                let m = self.modulo(q, v_rhs).unwrap();
-                                let cond = self.less_than(q, zero).unwrap();
-                                let offset = self
-                                    .if_nonzero_else(cond, v_rhs, zero)
-                                    .unwrap();
-                                let m = self.sub(m, offset).unwrap();
-
-                                // Torn from the div_euclid implementation
-                                let outer = self.less_than(m, zero).unwrap();
-                                let inner =
-                                    self.less_than(zero, v_rhs).unwrap();
+                                let a_neg = self.less_than(v_lhs, zero).unwrap();
+                                let rem_neg = self.and(a_neg, n).unwrap();
+                                let b_pos = self.less_than(zero, v_rhs).unwrap();
                                 let qa = self.sub(q, 1.0).unwrap();
                                 let qb = self.add(q, 1.0).unwrap();
-                                let inner = self
-                                    .if_nonzero_else(inner, qa, qb)
-                                    .unwrap();
-                                let e = self
-                                    .if_nonzero_else(outer, inner, q)
-                                    .unwrap();
+                                let adj =
+                                    self.if_nonzero_else(b_pos, qa, qb).unwrap();
+                                let e =
+                                    self.if_nonzero_else(rem_neg, adj, q).unwrap();
 
                                 let v = self.mul(d_rhs, e).unwrap();
                                 self.sub(d_lhs, v)
